@@ -15,7 +15,7 @@ INT_INCR = ["1", "-1", "5", "0", "+2", "-7"]
 BIG_INCR = INT_INCR + ["9223372036854775807", "-9223372036854775808", "9223372036854775802"]
 BAD_INT = ["zz", "", "1.5", " 1", "9223372036854775808", "1_0"]
 # ParseFloat is modelled on: [+-]digits[.digits] | .digits | digits. | [+-]inf|infinity; only dyadic values
-FLOAT_INCR = ["1.5", "-0.25", "2", "0.5", "+2.5", ".5", "5.", "-3", "0", "inf", "+Infinity", "0.125", "100.75"]
+FLOAT_INCR = ["1.5", "-0.25", "2", "0.5", "+2.5", ".5", "5.", "-3", "0", "inf", "+Infinity", "0.125", "100.75", "0.00001"]
 BAD_FLOAT = ["zz", "", "1.5x", "0x10", ".", "+", "1..5"]
 COUNTS = ["-3", "-2", "-1", "0", "1", "2", "3", "5", "+1", "-0"]
 BAD_COUNT = ["zz", "", "1.5", "9223372036854775808"]
